@@ -47,6 +47,13 @@ pub struct World {
     unstable_reported: Vec<String>,
     pub rec: RunRecord,
     probes: [u64; NSITES],
+    callsigs: Vec<(u64, u64)>,
+}
+
+/// Process-wide (per worker) memory of the path signature first seen for each request.
+fn sig_memory() -> &'static Mutex<HashMap<u64, u64>> {
+    static M: std::sync::OnceLock<Mutex<HashMap<u64, u64>>> = std::sync::OnceLock::new();
+    M.get_or_init(|| Mutex::new(HashMap::new()))
 }
 
 fn now() -> u64 {
@@ -163,6 +170,30 @@ impl Ctx {
             _ => {}
         }
         w.rec.compared += 1;
+        if got.is_ok() {
+            // path purity: the same request must take the same path through the library
+            let sig = hook::last_sig();
+            let mut h = crate::rng::Fnv::default();
+            h.bytes(req.show().as_bytes());
+            h.u64(poll.map_or(u64::MAX, |p| p as u64));
+            w.callsigs.push((h.0, sig));
+            let mut mem = sig_memory().lock().unwrap_or_else(|e| e.into_inner());
+            match mem.get(&h.0) {
+                Some(&old) if old != sig => {
+                    w.rec.path_impure += 1;
+                    if w.rec.path_impure_examples.len() < 3 {
+                        w.rec.path_impure_examples.push(match poll {
+                            Some(p) => format!("{} poll {}", req.show(), p),
+                            None => req.show(),
+                        });
+                    }
+                }
+                Some(_) => {}
+                None => {
+                    mem.insert(h.0, sig);
+                }
+            }
+        }
         let exp_s = exp.unwrap_or("<iterator gone in reference>");
         let verdict;
         if refres.unstable {
@@ -217,8 +248,8 @@ impl Ctx {
         }
         drop(w);
         self.log(format!(
-            "t={} T{} return {} {} ref={} {}",
-            t, me, tag, got_s, exp_s, verdict
+            "t={} T{} return {} {} ref={} {} steps={}",
+            t, me, tag, got_s, exp_s, verdict, got_steps
         ));
     }
 
@@ -485,7 +516,26 @@ impl Ctx {
 
     fn exec_op(&mut self, i: usize, op: &Op) {
         match op {
-            Op::Compile { slot, key } => self.do_compile(i, *slot, key),
+            Op::Compile {
+                slot,
+                key,
+                drop_first,
+            } => {
+                if *drop_first {
+                    let old = self.take_obj(*slot);
+                    if let Some(o) = &old {
+                        self.log(format!(
+                            "t={} T{} drop obj{} (before compile into slot={})",
+                            now(),
+                            self.me(),
+                            o.id,
+                            slot
+                        ));
+                    }
+                    drop(old);
+                }
+                self.do_compile(i, *slot, key)
+            }
             Op::Recompile { slot } => {
                 let old = self.take_obj(*slot);
                 match old {
@@ -597,6 +647,44 @@ fn thread_main(mut ctx: Ctx) {
     sim.exit();
 }
 
+type PoolJob = Box<dyn FnOnce() + Send + 'static>;
+
+/// Long-lived caller threads of a worker process. Their thread-local storage and
+/// allocator caches carry history from run to run, as the threads of a long-running
+/// program do.
+pub struct CallerPool {
+    txs: Vec<std::sync::mpsc::Sender<PoolJob>>,
+    done_rx: std::sync::mpsc::Receiver<usize>,
+}
+
+impl CallerPool {
+    pub fn new(n: usize) -> CallerPool {
+        let (done_tx, done_rx) = std::sync::mpsc::channel::<usize>();
+        let mut txs = Vec::new();
+        for i in 0..n {
+            let (tx, rx) = std::sync::mpsc::channel::<PoolJob>();
+            let done = done_tx.clone();
+            std::thread::Builder::new()
+                .stack_size(THREAD_STACK)
+                .name(format!("caller-{}", i))
+                .spawn(move || {
+                    while let Ok(job) = rx.recv() {
+                        job();
+                        if done.send(i).is_err() {
+                            break;
+                        }
+                    }
+                })
+                .expect("spawn caller thread");
+            txs.push(tx);
+        }
+        CallerPool { txs, done_rx }
+    }
+    pub fn size(&self) -> usize {
+        self.txs.len()
+    }
+}
+
 pub struct RunOutput {
     pub rec: RunRecord,
     /// Threads were leaked (wall-clock guard or deadlock): the process must not run
@@ -604,7 +692,14 @@ pub struct RunOutput {
     pub poisoned: bool,
 }
 
-pub fn run(spec: RunSpec, refc: &Arc<Mutex<RefClient>>, keep_log: bool, want_spec: bool) -> RunOutput {
+pub fn run(
+    spec: RunSpec,
+    refc: &Arc<Mutex<RefClient>>,
+    pool: Option<&CallerPool>,
+    keep_log: bool,
+    want_spec: bool,
+    want_trace: bool,
+) -> RunOutput {
     let spec = Arc::new(spec);
     hashkeys::reseed(spec.hash_stream);
     CLOCK.store(0, Ordering::Relaxed);
@@ -631,11 +726,19 @@ pub fn run(spec: RunSpec, refc: &Arc<Mutex<RefClient>>, keep_log: bool, want_spe
         unstable_reported: Vec::new(),
         rec: std::mem::take(&mut rec),
         probes: [0; NSITES],
+        callsigs: Vec::new(),
     }));
+    let use_pool = match pool {
+        Some(p) => !spec.fresh_threads && p.size() >= spec.threads(),
+        None => false,
+    };
     {
         let mut g = sched::lock(&shared.m);
+        if want_trace {
+            g.trace = Some(Vec::new());
+        }
         let line = format!(
-            "run seed={} flavor={} cfg{{threads={} slots={} policy={} crashes={} mask={:#x}:{:#x} hashstream={:#x} setup_ops={} explicit_schedule={}}}",
+            "run seed={} flavor={} cfg{{threads={} slots={} policy={} crashes={} mask={:#x}:{:#x} hashstream={:#x} setup_ops={} explicit_schedule={} caller_threads={}}}",
             spec.seed,
             spec.flavor,
             spec.threads(),
@@ -646,7 +749,8 @@ pub fn run(spec: RunSpec, refc: &Arc<Mutex<RefClient>>, keep_log: bool, want_spe
             spec.mask_lo,
             spec.hash_stream,
             spec.setup_ops,
-            spec.decisions.is_some()
+            spec.decisions.is_some(),
+            if use_pool { "long-lived" } else { "fresh" }
         );
         g.logline(&line);
     }
@@ -656,35 +760,43 @@ pub fn run(spec: RunSpec, refc: &Arc<Mutex<RefClient>>, keep_log: bool, want_spe
             (sim.clone(), spec.clone(), world.clone(), refc.clone());
         let shared2 = shared.clone();
         let world2 = world.clone();
-        let h = std::thread::Builder::new()
-            .stack_size(THREAD_STACK)
-            .name(format!("sim-T{}", sim.idx))
-            .spawn(move || {
-                let r = std::panic::catch_unwind(std::panic::AssertUnwindSafe(|| {
-                    thread_main(Ctx {
-                        sim: sim_c,
-                        spec: spec_c,
-                        world: world_c,
-                        refc: refc_c,
-                        iters: (0..MAX_ITERS).map(|_| None).collect(),
-                    })
-                }));
-                if let Err(p) = r {
-                    let msg = if let Some(s) = p.downcast_ref::<&str>() {
-                        s.to_string()
-                    } else if let Some(s) = p.downcast_ref::<String>() {
-                        s.clone()
-                    } else {
-                        "harness thread panicked".to_string()
-                    };
-                    wlock(&world2).rec.harness_error = Some(msg);
-                    let mut g = sched::lock(&shared2.m);
-                    g.done = true;
-                    shared2.main_cv.notify_all();
-                }
-            })
-            .expect("spawn simulated thread");
-        handles.push(h);
+        let body = move || {
+            let r = std::panic::catch_unwind(std::panic::AssertUnwindSafe(|| {
+                thread_main(Ctx {
+                    sim: sim_c,
+                    spec: spec_c,
+                    world: world_c,
+                    refc: refc_c,
+                    iters: (0..MAX_ITERS).map(|_| None).collect(),
+                })
+            }));
+            if let Err(p) = r {
+                let msg = if let Some(s) = p.downcast_ref::<&str>() {
+                    s.to_string()
+                } else if let Some(s) = p.downcast_ref::<String>() {
+                    s.clone()
+                } else {
+                    "harness thread panicked".to_string()
+                };
+                wlock(&world2).rec.harness_error = Some(msg);
+                let mut g = sched::lock(&shared2.m);
+                g.done = true;
+                shared2.main_cv.notify_all();
+            }
+        };
+        if use_pool {
+            // rotate which long-lived thread plays which simulated thread
+            let p = pool.unwrap();
+            let os = (sim.idx + (spec.seed % p.size() as u64) as usize) % p.size();
+            p.txs[os].send(Box::new(body)).expect("caller thread gone");
+        } else {
+            let h = std::thread::Builder::new()
+                .stack_size(THREAD_STACK)
+                .name(format!("sim-T{}", sim.idx))
+                .spawn(body)
+                .expect("spawn simulated thread");
+            handles.push(h);
+        }
     }
     sched::kick_off(&shared);
     let in_time = sched::drive(&shared, std::time::Duration::from_secs(20));
@@ -697,9 +809,17 @@ pub fn run(spec: RunSpec, refc: &Arc<Mutex<RefClient>>, keep_log: bool, want_spe
         for h in handles {
             let _ = h.join();
         }
+        if use_pool {
+            for _ in 0..spec.threads() {
+                let _ = pool.unwrap().done_rx.recv();
+            }
+        }
     }
     let mut w = wlock(&world);
     let mut rec = std::mem::take(&mut w.rec);
+    if want_trace {
+        rec.callsigs = Some(std::mem::take(&mut w.callsigs));
+    }
     rec.probes = w
         .probes
         .iter()
@@ -719,6 +839,8 @@ pub fn run(spec: RunSpec, refc: &Arc<Mutex<RefClient>>, keep_log: bool, want_spe
         );
         g.logline(&end);
         rec.log_hash = g.log_hash.0;
+        rec.trace = g.trace.take();
+        rec.pooled_threads = use_pool;
         rec.sched_hash = g.sched_hash.0;
         rec.ileave_hash = g.ileave_hash.0;
         rec.decisions = g.decisions.len();
